@@ -141,9 +141,11 @@ class Executor:
                                                line=self.cur_line, note=note))
 
     def feasible(self, st: State) -> bool:
+        from .engine import text_literal_axioms
         self.feas.push()
         try:
             self.feas.add(*st.pc)
+            self.feas.add(*text_literal_axioms())
             r = self.feas.check()
         finally:
             self.feas.pop()
@@ -559,7 +561,15 @@ class Executor:
 
     def heap_get(self, st, ref: V, field):
         k, arr, ft = self.heap_arr(st, ref.ty.cls, field)
-        return V(ft, z3.Select(arr, ref.z))
+        v = V(ft, z3.Select(arr, ref.z))
+        if ops.needs_wf(ft):
+            # type invariant of the stored value (lengths >= 0 ...), once per (state, term)
+            seen = st.ghost.setdefault("__wf_seen__", set())
+            key = v.z.get_id()
+            if key not in seen:
+                st.ghost["__wf_seen__"] = seen | {key}
+                wf_assumptions(v, st)
+        return v
 
     def heap_set(self, st, ref: V, field, val):
         k, arr, ft = self.heap_arr(st, ref.ty.cls, field)
@@ -581,6 +591,9 @@ class Executor:
                 raise Unsupported("dict literal with non-constant keys")
             items[k.value] = self.eval(st, v)
         return PyObj(("dictlit", items))
+
+    def e_Set(self, st, e):
+        return PyObj(("setlit", [self.eval(st, x) for x in e.elts]))
 
     def e_ListComp(self, st, e):
         return self.comprehension(st, e)
